@@ -40,4 +40,15 @@ def universalNewlines : Str → Str
   | '\r' :: '\n' :: r => '\n' :: universalNewlines r
   | c :: r => (if c = '\r' then '\n' else c) :: universalNewlines r
 
+/-- The only line breaks of the text are `\n` and `\r\n` (no lone `\r`, no `\v \f \x1c \x1d \x1e
+\x85 \u2028 \u2029`): `str.splitlines`, stream iteration and universal-newlines reading then see
+the same lines. -/
+def plainBreaks : Str → Bool
+  | [] => true
+  | '\r' :: '\n' :: r => plainBreaks r
+  | c :: r => (c = '\n' || !isLineSep c) && plainBreaks r
+
+/-- no line ends in white space (before its line break) -/
+def noTrailingWs (s : Str) : Bool := (splitLines s).all fun l => rstrip l == l
+
 end Pybtex
